@@ -7,6 +7,7 @@ from ..loader import Package
 from ..paths import Analysis
 from ..report import VERIF
 from ..terms import callee, canon, const, is_const, kw, show, walk, NONE
+from . import common as K
 
 EXPLANATION = ("effects/alias analysis (engine D) over every public callable, event-order (typestate) analysis of fit/predict, "
                "constructor-contract and who-may-call checks; each obligation is established on every enumerated path")
@@ -452,32 +453,7 @@ def r6_rejection(ctx):
     # both-or-neither guards
     for qn, a, b in (("verde.coordinates.grid_coordinates", "shape", "spacing"), ("verde.coordinates.line_coordinates", "size", "spacing")):
         paths = ctx.paths(qn)
-        both = neither = None
-        mentions = lambda p, nm: any(("param", nm) in Q.leaves(c) for c, _v in p.conds)
-        for p in paths:
-            na = _none_state(p, a)
-            nb = _none_state(p, b)
-            if p.exit == "raise":
-                if na is False and nb is False:
-                    both = True
-                if na is True and nb is True:
-                    neither = True
-        # the rejection is gone only on positive evidence: a normal path on which both (neither) are decided given (missing), or on which one
-        # is decided and the other is never looked at; a guard written in a form the decisions do not resolve (flags in a tuple, a count of
-        # given arguments) leaves the question open
-        for p in paths:
-            if not p.normal:
-                continue
-            na = _none_state(p, a)
-            nb = _none_state(p, b)
-            for x, y, nx, ny in ((a, b, na, nb), (b, a, nb, na)):
-                if both is None and nx is False and (ny is False or not mentions(p, y)):
-                    both = False
-                if neither is None and nx is True and (ny is True or not mentions(p, y)):
-                    neither = False
-        if not any(mentions(p, a) or mentions(p, b) for p in paths):
-            both = False if both is None else both
-            neither = False if neither is None else neither
+        both, neither = K.both_neither(ctx, qn, a, b)
         ctx.check("R6", "%s|rejects-both|%s,%s" % (qn, a, b), both, "a path raises when both %s and %s are given" % (a, b),
                   bad="both %s and %s given reach a normal return" % (a, b), fn=qn)
         ctx.check("R6", "%s|rejects-neither|%s,%s" % (qn, a, b), neither, "a path raises when neither %s nor %s is given" % (a, b),
@@ -493,7 +469,7 @@ def r6_rejection(ctx):
         ctx.check("R6", "%s|guards-precede-generation" % qn, not late, "the both/neither rejections happen before any coordinate is generated", fn=qn)
     for qn, names in (("verde.base.base_classes.BaseBlockCrossValidator.__init__", ("spacing", "shape")), ("verde.coordinates.rolling_window", ("shape", "spacing"))):
         paths = ctx.paths(qn)
-        neither = any(p.exit == "raise" and _none_state(p, names[0]) is True and _none_state(p, names[1]) is True for p in paths)
+        _both, neither = K.both_neither(ctx, qn, names[0], names[1])
         ctx.check("R6", "%s|rejects-neither|%s,%s" % (qn, names[0], names[1]), neither, "raises when neither %s nor %s is given" % names,
                   bad="no raising path for neither %s nor %s" % names, fn=qn)
     # forwarding of the pair, under their own names, to a validating callee
